@@ -347,10 +347,15 @@ def build_model(name, mains, gens, timeout=300):
 # --------------------------------------------------------------------------
 
 def load_known_findings():
-    p = os.path.join(VERIF, "known_findings.json")
-    if not os.path.exists(p):
-        return {"findings": [], "fixed": []}
-    return json.load(open(p))
+    """known_findings.json plus per-property fragments known_findings.d/*.json (same shape)."""
+    out = {"findings": [], "fixed": []}
+    ps = [os.path.join(VERIF, "known_findings.json")] + sorted(glob.glob(os.path.join(VERIF, "known_findings.d", "*.json")))
+    for p in ps:
+        if os.path.exists(p):
+            d = json.load(open(p))
+            out["findings"] += d.get("findings", [])
+            out["fixed"] += d.get("fixed", [])
+    return out
 
 
 # --------------------------------------------------------------------------
